@@ -267,7 +267,11 @@ func codecGrid(c *Ctx) []codecIn {
 		allCodecs(randGraphJ(r, n, 0.5))
 	}
 	// Multicode at its largest sizes (vertex j is the byte j+1, so n = 255 is the last size the format has room for)
-	for _, n := range []int{127, 128, 254, 255} {
+	mcN := []int{128, 255}
+	if big {
+		mcN = []int{127, 128, 254, 255}
+	}
+	for _, n := range mcN {
 		gj := randGraphJ(r, n, 0.004)
 		gj.E = append(gj.E, obs.PairToRank(n-2, n-1))
 		sort.Ints(gj.E)
